@@ -17,6 +17,8 @@ Proof. exact mar_sound. Qed.
 
 (** the proved rules, as they stand in the transcribed UNSORTED_OPTS:
     reverse;first -> last, reverse;last -> first, rise;first -> FirstMinIndex, fall;last -> LastMinIndex,
+    sort;first -> FirstSort, sort;last -> LastSort, sort;reverse -> SortDown, SortDown;reverse -> sort,
+    absolute value;negate -> NegAbs,
     fall;first -> FirstMaxIndex, rise;last -> LastMaxIndex (the last two pairs since fix commits 1f3e8d8, 2d75a21),
     deduplicate;length -> CountUnique, TransposeOpt (all three shapes, every count >= 0), PopConst *)
 Theorem C01_proved_rules_sound :
@@ -71,6 +73,27 @@ Theorem C01_rise_last_equiv : forall a u, p_rise a = Ok u -> p_last_index row_le
 Proof. exact rise_last_equiv. Qed.
 Theorem C01_fall_last_equiv : forall a u, p_fall a = Ok u -> p_last_index row_ge a = p_last None u.
 Proof. exact fall_last_equiv. Qed.
+(** sort then first / last equals the fused FirstSort / LastSort on every well-formed array,
+    failure on an array without rows included *)
+Theorem C01_sort_first_equiv : forall a, wfb a = true ->
+  p_first_sort a = (v <- p_sort a ;; p_first None v).
+Proof. exact sort_first_equiv. Qed.
+Theorem C01_sort_last_equiv : forall a, wfb a = true ->
+  p_last_sort a = (v <- p_sort a ;; p_last None v).
+Proof. exact sort_last_equiv. Qed.
+(** sort then reverse equals the fused SortDown, and SortDown then reverse equals sort, on every
+    well-formed array (rev_isort: the reverse of a stable ascending insertion sort is the insertion
+    sort by the strict descending order) *)
+Theorem C01_sort_reverse_equiv : forall a, wfb a = true ->
+  p_sort_down a = (v <- p_sort a ;; Ok (p_reverse v)).
+Proof. exact sort_reverse_equiv. Qed.
+Theorem C01_sortdown_reverse_equiv : forall a, wfb a = true ->
+  p_sort a = (v <- p_sort_down a ;; Ok (p_reverse v)).
+Proof. exact sortdown_reverse_equiv. Qed.
+(** absolute value then negate is the fused NegAbs *)
+Theorem C01_abs_neg_is_neg_abs : forall a u v,
+  p_perv1 PAbs a = Ok u -> p_perv1 PNeg u = Ok v -> p_neg_abs a = Ok v.
+Proof. exact abs_neg_is_neg_abs. Qed.
 Theorem C01_transposeN_compose : forall x y st out, (0 <= x)%Z -> (0 <= y)%Z ->
   (st' <- on_top (fun a => Ok (Nat.iter (Z.to_nat x) p_transpose a)) st ;;
    on_top (fun a => Ok (Nat.iter (Z.to_nat y) p_transpose a)) st') = Ok out ->
@@ -127,6 +150,11 @@ Print Assumptions C01_push_inline_sound.
 Print Assumptions C01_reverse_first_is_last.
 Print Assumptions C01_reverse_last_is_first.
 Print Assumptions C01_rise_first_is_first_min.
+Print Assumptions C01_sort_first_equiv.
+Print Assumptions C01_sort_last_equiv.
+Print Assumptions C01_sort_reverse_equiv.
+Print Assumptions C01_sortdown_reverse_equiv.
+Print Assumptions C01_abs_neg_is_neg_abs.
 Print Assumptions C01_transposeN_compose.
 Print Assumptions C01_rise_first_equiv.
 Print Assumptions C01_fall_first_equiv.
